@@ -120,7 +120,7 @@ func offRun(in []byte) (interface{}, error) {
 		} else if e.Kind == "psync" {
 			off = -1000000 // "psync ? -1": a full resynchronisation is requested
 		}
-		tr.Emit(tracer.Ev{"e": "src-" + e.Kind, "conn": e.Conn, "off": off, "zero": e.Off == 0, "n": e.N, "runid_ok": e.RunID == runid || e.RunID == "?"})
+		tr.Emit(tracer.Ev{"e": "src-" + e.Kind, "conn": e.Conn, "off": off, "zero": e.Off == 0, "n": e.N, "runid_ok": e.RunID == runid || e.RunID == "?", "runid_exact": e.RunID == runid})
 	})
 	srcAddr, err := src.Listen()
 	if err != nil {
@@ -143,7 +143,52 @@ func offRun(in []byte) (interface{}, error) {
 	if idleAt == nil {
 		idleAt = []int{}
 	}
-	tr.Emit(tracer.Ev{"e": "cfg", "start": 0, "real_start": fmt.Sprint(cfg.Start), "ends": relEnds, "stream_len": len(stream), "drops": dropAt, "idles": idleAt, "refuse": cfg.Refuse})
+	pushIdx := make([]int, cfg.Commands) // rpush number i is the (pushIdx[i]+1)-th command of the stream
+	for i := 0; i < cfg.Commands; i++ {
+		pushIdx[i] = pushAt[i] + 1
+	}
+	tr.Emit(tracer.Ev{"e": "cfg", "start": 0, "real_start": fmt.Sprint(cfg.Start), "ends": relEnds, "stream_len": len(stream), "drops": dropAt, "idles": idleAt, "refuse": cfg.Refuse,
+		"push_idx": pushIdx})
+	// every transaction the target executes, on the shared sequence: which pushes it applied and which checkpoint it stored
+	// (the hook sees EXEC, then the queued commands one by one; a transaction is reported when the next non-queued command arrives)
+	var txPushes []int
+	txCkpt, txOpen := int64(-1), false
+	flushTx := func() {
+		if txOpen {
+			if txPushes == nil {
+				txPushes = []int{}
+			}
+			tr.Emit(tracer.Ev{"e": "tgt-exec", "pushes": txPushes, "ckpt": txCkpt})
+		}
+		txPushes, txCkpt, txOpen = nil, -1, false
+	}
+	tgt.SetAfterHook(func(e mredis.LogEntry) {
+		if e.Queued {
+			return
+		}
+		if !e.InExec {
+			flushTx()
+		}
+		switch {
+		case e.Cmd == "EXEC":
+			txOpen = true
+		case e.Cmd == "RPUSH" && len(e.Args) == 2 && string(e.Args[0]) == "list":
+			n, _ := strconv.Atoi(string(e.Args[1]))
+			if n < 0 || n >= len(pushIdx) {
+				n = -1
+			} else {
+				n = pushIdx[n]
+			}
+			if e.InExec {
+				txPushes = append(txPushes, n)
+			} else {
+				tr.Emit(tracer.Ev{"e": "tgt-exec", "pushes": []int{n}, "ckpt": -1}) // a write outside any transaction
+			}
+		case e.Cmd == "HSET" && e.InExec && len(e.Args) == 3 && bytes.HasSuffix(e.Args[1], []byte("-"+utils.CheckpointOffset)):
+			o, _ := strconv.ParseInt(string(e.Args[2]), 10, 64)
+			txCkpt = rel(o)
+		}
+	})
 	conf.Options.SourceType, conf.Options.TargetType = "standalone", "standalone"
 	conf.Options.SourceAuthType, conf.Options.TargetAuthType = "auth", "auth"
 	conf.Options.ResumeFromBreakPoint = true
@@ -185,6 +230,8 @@ func offRun(in []byte) (interface{}, error) {
 	}
 	complete := src.Sent() >= int64(len(stream))
 	time.Sleep(time.Duration(cfg.QuietMs) * time.Millisecond)
+	tgt.SetAfterHook(nil)
+	flushTx()
 	tr.Emit(tracer.Ev{"e": "quiet", "complete": complete, "sent": src.Sent()})
 	// what the target holds: checkpoint offsets in write order, and the list built by the stream
 	var ckpts []int64
